@@ -48,7 +48,14 @@ GOOD_NAMES = ['good.test', 'a.good.test', 'localhost', 'optout.good.test']
 
 
 def sh(*cmd: str, **kw: Any) -> None:
-    subprocess.run(list(cmd), check=True, capture_output=True, timeout=60, **kw)
+    # key generation on a loaded machine can be slow: generous limit, one retry
+    for attempt in (0, 1):
+        try:
+            subprocess.run(list(cmd), check=True, capture_output=True, timeout=600, **kw)
+            return
+        except subprocess.TimeoutExpired:
+            if attempt:
+                raise
 
 
 def fixture() -> Dict[str, Any]:
